@@ -380,7 +380,10 @@ def _anchor_terms(ctx, fv) -> List[Tuple[str, int, ast.AST]]:
         stores = [s for s in LL.analyse_stores(ctx, fv) if s.loop_head is not None]
         if stores:
             head = stores[0].loop_head
-            for i, (nid, a) in enumerate(LL.loop_sequence_exprs(fv, head)[:2]):
+            exprs = LL.loop_sequence_exprs(fv, head)
+            # the wells and the volumes wherever they stand in the zip (a further sequence - the compositions - is judged by the length guard)
+            named = [(nid, a) for nid, a in exprs if _loop_param_seq(fv, fv.res.resolve(a, nid)) in ("wells", "volumes")]
+            for i, (nid, a) in enumerate(named if len(named) == 2 and len(exprs) > 2 else exprs[:2]):
                 out.append((f"zip[{i}]", nid, a))
         return out
     for cs in fv.calls():
